@@ -333,6 +333,242 @@ def dynamic_child_cases(ctx, bt, n):
             root.update(idx[nxt])
 
 
+# ---------------------------------------------------------------------------------------------------------------------------
+# whole read-outs on twins + trades whose cash leg is exactly zero, read right afterwards
+
+def getters_of(bt, node):
+    """every public value getter of a node (the ones that exist for its kind / its set-up)"""
+    if isinstance(node, bt.core.SecurityBase):
+        names = SCALAR_SEC + ["bidoffer", "bidoffer_paid"] + SERIES_SEC
+        if node._bidoffer_set:
+            names = names + ["bidoffers", "bidoffers_paid"]
+        if hasattr(node, "_coupon_income"):
+            names = names + ["coupon", "holding_cost", "coupons", "holding_costs"]
+        return names
+    names = SCALAR_STRAT + SERIES_STRAT
+    if node._bidoffer_set:
+        names = names + ["bidoffer_paid", "bidoffers_paid"]
+    return names
+
+
+def same_reading(a, b):
+    """two returned values are the same value (labels, shape, every entry; nan = nan, -0.0 = 0.0)"""
+    sa, sb = hasattr(a, "index"), hasattr(b, "index")
+    if sa != sb:
+        return False
+    if sa:
+        if type(a) is not type(b) or a.shape != b.shape or not a.index.equals(b.index):
+            return False
+        if hasattr(a, "columns") and list(a.columns) != list(b.columns):
+            return False
+        x = np.asarray(a.values, dtype=float).ravel()
+        y = np.asarray(b.values, dtype=float).ravel()
+        return bool(np.all((x == y) | ((x != x) & (y != y))))
+    x, y = float(a), float(b)
+    return x == y or (x != x and y != y)
+
+
+class ReadAllTwin(Observer):
+    """clause 2 on whole read-outs: after a step that leaves nothing owed (no update=False run open) two deep copies of the real tree
+    are taken; on one EVERY getter of EVERY node is read (one of them first - any getter may be the first thing a user reads - the
+    others in a fixed order), on the other an explicit update of the current date is made and the same getters are read in the same
+    order.  Every returned value must be the same, and no returned series may end after now.  Whether the engine flagged the tree is
+    not consulted: `pending changes` is judged by what the explicit update changes."""
+    TRADES = ("transact", "allocate", "rebalance", "close", "adjust", "flatten")
+
+    def __init__(self, ctx, p_other=0.25):
+        self.ctx = ctx
+        self.p_other = p_other
+
+    def after(self, bt, spec, root, dates, step, i):
+        ctx = self.ctx
+        if step["post"]["root"]["now"] is None or step["pending"]:
+            return
+        import random as _random
+        r = _random.Random(int(spec.get("twin_seed", 0)) * 7919 + i)
+        kind = step["op"]["op"]
+        if kind not in self.TRADES and r.random() > self.p_other:
+            return
+        members = list(root.members)
+        plan = [(j, a) for j, m in enumerate(members) for a in getters_of(bt, m)]
+        # the first read: anything but a getter of a security that was just closed (flat, still flagged) - see the finding
+        # C08/read-is-not-an-update:just-closed-security-series-getter, which Monitor covers
+        firsts = [(j, a) for (j, a) in plan
+                  if not (isinstance(members[j], bt.core.SecurityBase) and members[j]._position == 0 and members[j]._needupdate)]
+        first = r.choice(firsts)
+        order = [first] + [x for x in plan if x != first]
+        was_stale = bool(root.stale)
+        try:
+            c1 = copy.deepcopy(root)
+            m1 = list(c1.members)
+            out1 = [getattr(m1[j], a) for (j, a) in order]
+            c2 = copy.deepcopy(root)
+            c2.update(c2.now)
+            m2 = list(c2.members)
+            out2 = [getattr(m2[j], a) for (j, a) in order]
+        except Exception as e:  # noqa
+            ctx.count("read-all-twins:raised:" + E.classify_exc(e))
+            return
+        ctx.count("read-all-twins")
+        ctx.count("read-all-twins:after-" + kind)
+        ctx.count("read-all-twins:getters-compared", len(order))
+        ctx.count("read-all-twins:tree-was-" + ("flagged-stale" if was_stale else "not-flagged"))
+        ctx.count("read-all-twins:first-read:" + ("security" if isinstance(members[first[0]], bt.core.SecurityBase) else "strategy") + "." + first[1])
+        bad = [(j, a, v1, v2) for (j, a), v1, v2 in zip(order, out1, out2) if not same_reading(v1, v2)]
+        if bad:
+            j, a, v1, v2 = bad[0]
+            key = "C08/stale-read:" + a
+            if not was_stale:
+                # the tree was not flagged: the explicit update either repeats the last one (then the two known low-bit effects of a
+                # second update of a date apply) or there WERE pending changes the reads did not show
+                tolv = float(bt.core.TOL)
+                dust = any(isinstance(m, bt.core.SecurityBase) and 0 < abs(m._position) < tolv for m in members)
+                carry = any(hasattr(m, "_coupon_income") and m._position != 0 for m in members)
+                if all(_numerically_equal(x[2], x[3]) for x in bad) and (dust or carry):
+                    key = "C08/update-not-idempotent" + (":dust" if dust else ":low-bits-after-carry-sweep")
+            ctx.violation(key, "after op %d %s (tree %sflagged stale; first read %s.%s): %s.%s read %r but after an explicit update of the same date %r (%d of %d getters differ)"
+                          % (i, json_op(step["op"]), "" if was_stale else "not ", members[first[0]].full_name, first[1],
+                             members[j].full_name, a, _short(v1), _short(v2), len(bad), len(order)), {"spec": spec, "upto": i})
+            return
+        for (j, a), v1 in zip(order, out1):
+            if hasattr(v1, "index") and len(v1.index):
+                node_now = m1[j].now
+                if not (isinstance(node_now, int) and node_now == 0) and v1.index[-1] > c1.now:
+                    ctx.violation("C08/series-beyond-now:" + a, "after op %d: %s.%s ends at %s but now is %s"
+                                  % (i, members[j].full_name, a, v1.index[-1], c1.now), {"spec": spec, "upto": i})
+                    return
+
+
+def json_op(op):
+    return " ".join("%s=%s" % (k, v) for k, v in op.items())
+
+
+def _rand_read(rng, spec, paths):
+    """a read operation on a random node (getter groups of the engine protocol)"""
+    p = rng.choice(paths)
+    if p[1]:
+        g = rng.choice([1, 2, 3, 0])
+        if g == 0:
+            attr = rng.choice(["value", "weight", "notional_value"])
+        elif g == 3:
+            attr = "position"
+        else:
+            attr = rng.choice(E.GETTERS[g])
+        if attr == "bidoffer_paid" and spec["bidoffer"] is None:
+            attr = "price"
+    else:
+        g = rng.choice([0, 0, 0, 3, 4])
+        attr = rng.choice(E.GETTERS[g])
+    return {"op": "read", "path": p[0], "g": g, "attr": attr}
+
+
+def zero_cash_trades(rng, spec):
+    """trades whose total cash leg (price x quantity x multiplier + bid/offer + commission) is exactly zero, made with update=True and
+    followed DIRECTLY by reads (no explicit update in between): the position changes, the cash does not.
+      fi-par       fixed-income tree; some instruments are quoted at exactly 0.0 on some dates (a par swap on its trade date) and are
+                   traded there at the market; notional = position for the fixed-income kinds, 0 for the hedge kinds
+      fi-bespoke   fixed-income tree with bid/offer data: transact(q, price=0.0)
+      mv-bespoke   market-value tree with bid/offer data: transact(q, price=0.0) (a free delivery / grant) at a non-zero market price
+      mv-worthless market-value tree, a security quoted at exactly 0.0 for a spell and traded there
+    with / without bid/offer data (none, all-zero spreads, non-zero spreads), commissions that vanish at a zero price (none, proportional
+    to price) and, as a control, a flat fee; securities directly under the root and inside a sub-strategy; mixed with ordinary trades,
+    update=False trades closed by an update, closes, redundant updates."""
+    from .. import gen_engine as G
+    T = max(spec["T"], 5)
+    spec["T"] = T
+    flavour = rng.choice(["fi-par", "fi-par", "fi-bespoke", "mv-bespoke", "mv-bespoke", "mv-worthless"])
+    fi = flavour.startswith("fi")
+    bespoke = flavour.endswith("bespoke")
+    names = G.TICKERS[:rng.randint(2, 4)]
+    kinds = [rng.choice([1, 1, 2, 3, 4]) if fi else 0 for _ in names]
+    if fi:
+        kinds[0] = rng.choice([1, 1, 2])          # at least one instrument whose notional is its position
+    leaves = [{"sec": t, "kind": k, "mult": rng.choice([1.0, 1.0, 10.0, 0.5]), "cfi": True} for t, k in zip(names, kinds)]
+    kids = list(leaves)
+    if len(leaves) >= 3 and rng.random() < 0.4:
+        n_in = rng.randint(1, 2)
+        kids = leaves[:-n_in] + [{"name": "s00", "fi": fi, "algos": False, "kids": leaves[-n_in:]}]
+    spec["tree"] = {"name": "root", "fi": fi, "algos": False, "kids": kids}
+    # quotes: the instruments traded at zero are quoted at exactly 0.0 on about half of the dates (else small, of either sign in a
+    # fixed-income tree); the others are ordinary
+    n_zero = 0 if bespoke else rng.randint(1, 2)
+    zero_quoted = set(names[:n_zero]) if rng.random() < 0.7 else set(rng.sample(names, n_zero))
+    prices = {}
+    for t in G.TICKERS:
+        if t in zero_quoted:
+            col = [0.0 if rng.random() < 0.55 else (rng.choice([-1, 1] if fi else [1]) * rng.randint(1, 24) / 8.0) for _ in range(T)]
+            col[rng.randint(1, T - 1)] = 0.0
+        else:
+            p = float(rng.randint(80, 120)) if fi else float(rng.randint(10, 60))
+            col = []
+            for _ in range(T):
+                p = max(1.0, p + rng.randint(-3, 3))
+                col.append(p)
+        prices[t] = col
+    spec["prices"] = prices
+    bo_mode = rng.choice(["zero", "nonzero"]) if bespoke else rng.choice(["none", "none", "zero", "zero", "nonzero"])
+    if bo_mode == "none":
+        spec["bidoffer"] = None
+    else:
+        spec["bidoffer"] = {t: [0.0 if bo_mode == "zero" else rng.choice([0.125, 0.25, 0.5])] * T for t in G.TICKERS}
+    spec["comm"] = rng.choice([[0, 0, 0], [0, 0, 0], [3, 0, 0.001], [3, 0, 0.015625], [1, 2.0, 0]])
+    if any(k in (2, 4) for k in kinds):
+        spec["coupons"] = {t: [rng.choice([0.0, 0.25, 0.5, 1.0]) for _ in range(T)] for t in G.TICKERS}
+        spec["cost_long"] = {t: [rng.choice([0.0, 0.125]) for _ in range(T)] for t in G.TICKERS} if rng.random() < 0.4 else None
+        spec["cost_short"] = None
+    else:
+        spec["coupons"] = spec["cost_long"] = spec["cost_short"] = None
+    spec["integer"] = rng.random() < 0.5
+    spec["capital"] = 1000000.0
+    spec["grid"] = "dyadic"
+    spec["twin_all"] = True
+    spec["twin_seed"] = rng.randrange(1 << 30)
+    spec["flavour"] = flavour
+    paths = G.all_paths(spec["tree"])
+    secs = [p for p in paths if p[1]]
+    subs = [p for p in paths if not p[1] and p[0]]
+    ops = [{"op": "adjust", "path": [], "amount": spec["capital"], "update": True, "flow": True}, {"op": "update", "d": 0}]
+    for p in subs:
+        ops.append({"op": "allocate", "path": p[0], "amount": spec["capital"] / 4, "update": True})
+    for p in secs:
+        if rng.random() < (0.3 if p[2]["sec"] in zero_quoted else 0.8):
+            ops.append({"op": "transact", "path": p[0], "q": float(rng.randint(5, 60)), "update": rng.random() < 0.7, "price": None})
+    ops.append({"op": "update", "d": 0})
+
+    def reads_after():
+        for _ in range(rng.randint(1, 3)):
+            ops.append(_rand_read(rng, spec, paths))
+        if rng.random() < 0.5:
+            ops.append({"op": "observe", "on": rng.choice(["real", "real", "copy"])})
+
+    for d in range(1, T):
+        ops.append({"op": "update", "d": d})
+        if rng.random() < 0.2:
+            ops.append({"op": "update", "d": d})
+        if rng.random() < 0.3:
+            ops.append(_rand_read(rng, spec, paths))
+        at_zero = [p for p in secs if prices[p[2]["sec"]][d] == 0.0]
+        for _ in range(rng.randint(1, 3)):
+            p = rng.choice(at_zero) if (at_zero and rng.random() < 0.7) else rng.choice(secs)
+            q = float(rng.choice([-1, 1, 1]) * rng.randint(1, 40)) * (rng.choice([1.0, 100.0]) if fi else 1.0)
+            px = 0.0 if (bespoke and rng.random() < 0.65) else None
+            upd = rng.random() < 0.85
+            ops.append({"op": "transact", "path": p[0], "q": q, "update": upd, "price": px})
+            if upd:
+                reads_after()
+            else:
+                ops.append({"op": "update", "d": d})
+        if rng.random() < 0.25:
+            p = rng.choice(secs)
+            ops.append({"op": "close", "path": p[0][:-1], "child": p[0][-1], "update": True})
+            reads_after()
+        if rng.random() < 0.5:
+            ops.append({"op": "update", "d": d})
+    ops.append({"op": "update", "d": T - 1})
+    ops.append({"op": "observe", "on": "real"})
+    spec["ops"] = ops
+
+
 def run(ctx, bt):
     dynamic_child_cases(ctx, bt, ctx.scale(40, 600))
     run_engine_protocol(ctx, bt, ctx.scale(12, 150), [Monitor(ctx, 1.0)], None, None, spec_kwargs={"fi_tree": False},
@@ -340,6 +576,8 @@ def run(ctx, bt):
     for sp in corpus():
         run_history_observed(bt, copy.deepcopy(sp), ctx.rng, len(sp["ops"]), [Monitor(ctx, 1.0)], ctx)
         ctx.evaluations += 1
+    run_engine_protocol(ctx, bt, ctx.scale(24, 300), [ReadAllTwin(ctx), Monitor(ctx)], None, None,
+                        spec_mutator=zero_cash_trades, corr_name="step[C08]:zero-cash-trade-then-read")
     run_engine_protocol(ctx, bt, ctx.scale(90, 900), [Monitor(ctx)], None, None, corr_name="step[C08]:whole-snapshot")
 
 
@@ -355,5 +593,6 @@ def replay(bt, data, ctx):
         dynamic_child_cases(ctx, bt, 200)       # regenerated from the seed of the run
         return
     spec = data["case"]["spec"]
-    steps, root, dates = run_history_observed(bt, spec, ctx.rng, len(spec["ops"]), [Monitor(ctx, 1.0)], ctx)
+    obs = [Monitor(ctx, 1.0)] + ([ReadAllTwin(ctx, 1.0)] if spec.get("twin_all") else [])
+    steps, root, dates = run_history_observed(bt, spec, ctx.rng, len(spec["ops"]), obs, ctx)
     model_compare(ctx, bt, [(spec, i, st) for i, st in enumerate(steps)], None, None, "step[C08]")
